@@ -390,6 +390,25 @@ func (vc *VC) callByContract(fc *FuncContract, callee *types.Func, sig *types.Si
 		}
 		vc.oblige("pre", label, pos, st.pc, c, "precondition of "+fc.Name+": "+rq.Src)
 	}
+	// termination of direct recursion: the measure of the callee's arguments is
+	// smaller (lexicographically) than the measure at entry, which is >= 0
+	if vc.fi != nil && vc.fc != nil && fc == vc.fc && len(fc.Measure) > 0 && len(vc.frames) == 1 {
+		entryEnv := &SpecEnv{vc: vc, vars: map[string]Value{}, old: map[string]Value{}, pkg: fc.Pkg}
+		for k, v := range vc.entry {
+			entryEnv.vars[k] = v
+			entryEnv.old[k] = v
+		}
+		var alts []Term
+		var eqs []Term
+		for _, mc := range fc.Measure {
+			m0 := vc.spec(mc.Expr, entryEnv)
+			m1 := vc.spec(mc.Expr, env)
+			lt := Term{fmt.Sprintf("(and (<= 0 %s) (< %s %s))", m0.S, m1.S, m0.S), SBool, nil}
+			alts = append(alts, tAnd(append(append([]Term{}, eqs...), lt)...))
+			eqs = append(eqs, tEq(m1, m0))
+		}
+		vc.oblige("decreases", "rec:"+fc.Name, pos, st.pc, tOr(alts...), "the measure decreases at the recursive call")
+	}
 	// modified pointees
 	for _, m := range fc.Modifies {
 		old, ok := env.vars[m].(Term)
